@@ -103,3 +103,15 @@ package pdnode_coord
 //@ loop 2
 //@   invariant nsInfo != nil && nsInfo != origNSInfo && fresh(nsInfo) && pdCoord.dpm != nil && len(nsInfo.Removings) == 0 && ghost(readyok, nil) > old(ghost(readyok, nil)) && len(origNSInfo.RaftNodes) == old(len(origNSInfo.RaftNodes))
 //@   invariant nsInfo.RaftIDs != nil && 0 <= nsInfo.MaxRaftID && nsInfo.MaxRaftID < 4611686018427387904 && (forall n string :: in(n, nsInfo.RaftIDs) ==> nsInfo.RaftIDs[n] <= nsInfo.MaxRaftID)
+
+//@ property C17
+// grouping of the live nodes by data centre: every node is appended to the list of its OWN data-centre tag (the ""
+// group when it carries none), exactly once (ghost(mapupd, nodeNameMap) counts the grouping steps)
+//@ extern sort.Sort func(data sort.Interface)
+//@   modifies *
+//@ func getNodeNameList(currentNodes map[string]cluster.NodeInfo) []SortableStrings
+//@   opt autoloops
+//@   mapassert nodeNameMap (!in(cluster.DCInfoTag, ninfo.Tags) ==> key == "") && len(value) >= 1 && value[len(value)-1] == nid && (in(key, nodeNameMap) ==> len(value) == len(nodeNameMap[key]) + 1) && (!in(key, nodeNameMap) ==> len(value) == 1)
+//@   modifies *
+//@ loop 2
+//@   invariant ghost(mapupd, nodeNameMap) == nvisited()
